@@ -1063,8 +1063,23 @@ func c01Inequal(c *Ctx, m *matchModel) {
 	nret := 0
 	for _, b := range f.Blocks {
 		ret, ok := b.Instrs[len(b.Instrs)-1].(*ssa.Return)
-		if !ok || len(ret.Results) != 3 || ssau.IsNilConst(ret.Results[1]) {
+		if !ok {
 			continue
+		}
+		if len(ret.Results) != 3 || ssau.IsNilConst(ret.Results[1]) {
+			// the outcome handed back in a small record: the return counts when the record's list of binding sets
+			// can be non-nil
+			carries := false
+			if len(ret.Results) != 3 {
+				for _, r := range ret.Results {
+					if recordCarriesBindingList(r, m.inSet, 0) {
+						carries = true
+					}
+				}
+			}
+			if !carries {
+				continue
+			}
 		}
 		nret++
 		held := false
@@ -1351,6 +1366,78 @@ func C02(c *Ctx) {
 			// pairing: the copy is appended to the list of remaining-element maps in the same block as the success is recorded
 			appended := m.recordedCopy(mp, 0)
 			c.R.Check(appended, "C02-R2", key+" recorded", c.pos(in), "the reduced copy is what is recorded for this alternative", "the reduced copy is not recorded with the success")
+		})
+		// the consumption folded into the copy: no delete at all, the map made in this iteration is filled from the
+		// ranged map under `key != the key of this iteration`. The copy is private by construction; what remains
+		// to be shown is that it leaves out exactly this iteration's element and that it is recorded.
+		ssau.Instrs(f, func(in ssa.Instruction) {
+			mk, ok := in.(*ssa.MakeMap)
+			if !ok {
+				return
+			}
+			mt, isMap := mk.Type().Underlying().(*types.Map)
+			if !isMap {
+				return
+			}
+			if bk, isBasic := mt.Key().Underlying().(*types.Basic); !isBasic || bk.Info()&types.IsInteger == 0 {
+				return
+			}
+			L := flow.InnermostLoop(loops, mk.Block())
+			if L == nil {
+				return
+			}
+			op, kL := loopOperand(L), rangeKey(L)
+			if op == nil || kL == nil {
+				return
+			}
+			if _, opMap := op.Type().Underlying().(*types.Map); !opMap {
+				return
+			}
+			filtered, unfiltered := 0, 0
+			var at ssa.Instruction
+			for _, r := range ssau.Referrers(mk) {
+				mu, isMU := r.(*ssa.MapUpdate)
+				if !isMU || mu.Map != ssa.Value(mk) {
+					continue
+				}
+				l2 := flow.InnermostLoop(loops, mu.Block())
+				if l2 == nil || l2 == L || !L.Blocks[l2.Header] || loopOperand(l2) != op || rangeKey(l2) == nil || mu.Key != rangeKey(l2) {
+					unfiltered++
+					continue
+				}
+				k2 := rangeKey(l2)
+				skip := false
+				for _, fa := range flow.FactsAt(mu.Block()) {
+					bo, isBO := fa.Cond.(*ssa.BinOp)
+					if !isBO || !((bo.X == k2 && bo.Y == kL) || (bo.X == kL && bo.Y == k2)) {
+						continue
+					}
+					if (bo.Op == token.NEQ && fa.True) || (bo.Op == token.EQL && !fa.True) {
+						skip = true
+					}
+				}
+				if skip {
+					filtered++
+					at = mu
+				} else {
+					unfiltered++
+				}
+			}
+			if filtered == 0 || unfiltered > 0 {
+				return
+			}
+			// a delete on the same map was counted above
+			for _, r := range ssau.Referrers(mk) {
+				if ci, isCI := r.(ssa.CallInstruction); isCI {
+					if b, isB := ci.Common().Value.(*ssa.Builtin); isB && b.Name() == "delete" {
+						return
+					}
+				}
+			}
+			n2++
+			key := fmt.Sprintf("%s: consume element #%d", fname(f), n2)
+			c.R.Discharge("C02-R2", key, c.pos(at), "the copy of the ranged map made in this iteration leaves out the element of this iteration")
+			c.R.Check(m.recordedCopy(mk, 0), "C02-R2", key+" recorded", c.pos(at), "the reduced copy is what is recorded for this alternative", "the reduced copy is not recorded with the success")
 		})
 	}
 	// ---- R3
@@ -1832,4 +1919,121 @@ func c01Predicates(c *Ctx) {
 		ok := trueImplies(h, 0, hasPrefix)
 		c.R.Check(ok, "C01-R9", pr.name+": true only for a string that starts with "+fmt.Sprintf("%q", pr.prefix), c.P.Pos(h.Pos()), "every way to answer true lies under strings.HasPrefix(s, "+fmt.Sprintf("%q", pr.prefix)+") (or the same test spelled out)", pr.name+" can answer true for a string that does not start with "+fmt.Sprintf("%q", pr.prefix)+": the matcher then treats a constant as a variable (binds it, or skips it when its key is missing)")
 	}
+}
+
+// rangeKey: the key (index) value of a range loop over a map, string or channel: the first component of the
+// header's next instruction.
+func rangeKey(l *flow.Loop) ssa.Value {
+	for _, in := range l.Header.Instrs {
+		nx, ok := in.(*ssa.Next)
+		if !ok {
+			continue
+		}
+		for _, r := range ssau.Referrers(nx) {
+			if ex, isEx := r.(*ssa.Extract); isEx && ex.Index == 1 {
+				return ex
+			}
+		}
+	}
+	return nil
+}
+
+// isBindingList: a slice type that mentions Bindings ([]Bindings, [][]Bindings).
+func isBindingList(t types.Type) bool {
+	_, isSl := t.Underlying().(*types.Slice)
+	return isSl && strings.Contains(t.String(), "Bindings")
+}
+
+// recordCarriesBindingList: v is a struct value (or a pointer to one) with a field that is a list of binding sets,
+// and that field may be non-nil in v. The record is resolved through the local it was built in (field stores and
+// whole-value stores), phis and the results of helpers in the set; anything that cannot be resolved counts as
+// carrying a list.
+func recordCarriesBindingList(v ssa.Value, inSet map[*ssa.Function]bool, depth int) bool {
+	t := v.Type()
+	if pt, isP := t.Underlying().(*types.Pointer); isP {
+		t = pt.Elem()
+	}
+	st, isSt := t.Underlying().(*types.Struct)
+	if !isSt {
+		return false
+	}
+	fields := map[int]bool{}
+	for i := 0; i < st.NumFields(); i++ {
+		if isBindingList(st.Field(i).Type()) {
+			fields[i] = true
+		}
+	}
+	if len(fields) == 0 {
+		return false
+	}
+	if depth > 6 {
+		return true
+	}
+	var fromAlloc func(al *ssa.Alloc) bool
+	fromAlloc = func(al *ssa.Alloc) bool {
+		for _, r := range ssau.Referrers(al) {
+			switch x := r.(type) {
+			case *ssa.FieldAddr:
+				if !fields[x.Field] {
+					continue
+				}
+				for _, r2 := range ssau.Referrers(x) {
+					st, isStore := r2.(*ssa.Store)
+					if isStore && st.Addr == ssa.Value(x) {
+						if !ssau.IsNilConst(st.Val) {
+							return true
+						}
+						continue
+					}
+					if ld, isLd := r2.(*ssa.UnOp); isLd && ld.Op == token.MUL {
+						continue
+					}
+					return true // the field's address escapes
+				}
+			case *ssa.Store:
+				if x.Addr == ssa.Value(al) {
+					if recordCarriesBindingList(x.Val, inSet, depth+1) {
+						return true
+					}
+					continue
+				}
+				return true
+			case *ssa.UnOp, *ssa.DebugRef:
+			default:
+				return true
+			}
+		}
+		return false
+	}
+	switch x := v.(type) {
+	case *ssa.Const:
+		return false // the zero record
+	case *ssa.Alloc:
+		return fromAlloc(x)
+	case *ssa.UnOp:
+		if x.Op == token.MUL {
+			if al, isAl := x.X.(*ssa.Alloc); isAl {
+				return fromAlloc(al)
+			}
+		}
+	case *ssa.Phi:
+		for _, e := range x.Edges {
+			if recordCarriesBindingList(e, inSet, depth+1) {
+				return true
+			}
+		}
+		return false
+	case *ssa.Call:
+		if sc := x.Common().StaticCallee(); sc != nil && inSet[sc] && len(sc.Blocks) > 0 && sc.Signature.Results().Len() == 1 {
+			for _, b := range sc.Blocks {
+				if ret, ok := b.Instrs[len(b.Instrs)-1].(*ssa.Return); ok {
+					if recordCarriesBindingList(ret.Results[0], inSet, depth+1) {
+						return true
+					}
+				}
+			}
+			return false
+		}
+	}
+	return true
 }
